@@ -1,9 +1,11 @@
 (* Extraction of the C01 judgement (ExtrOcamlBasic only): erasure, the membership decision
    `judge` (= Sem.walk_inh with a bounded signature enumeration), `wt_valueb`, the enumerator of
-   inputs of a parameter type, and the mirrored builtin signature table. *)
+   inputs of a parameter type, and the mirrored builtin signature table; and the core-fragment typing judgement `infer` with its
+   evaluator `eval` (typed/Core.v, proved sound in typed/CoreProofs.v). *)
 Require Extraction.
 Require Import ExtrOcamlBasic.
-From Quiver Require Import Types Sem typed.Typed.
+From Quiver Require Import Types Sem typed.Typed typed.Core.
 Extraction Language OCaml.
 Extraction "extracted/typed_model.ml"
+  infer eval memb
   mk_tprog erase judge wt_valueb enum_inputs generic_fun vdepth sig_table open_reg var_freeb closedb inhabb.
